@@ -228,6 +228,13 @@ def install(I):
         return True
     fn('all_patterns_valid', all_patterns_valid)
 
+    def first_inits_rest_unite(I_, p):
+        """`time at A or B or C`: the first pattern REPLACES the time register (INIT), every further one is ADDED (UNION)"""
+        ops_ = [getattr(x.attrs['param0'], 'name', None) for x in I_.read_items(p.attrs['_code_gen'].attrs['_code'])
+                if isinstance(x, PyObj) and x.cls.name == 'Instruction' and getattr(x.attrs['op_code'], 'name', '') == 'TIME_PATTERN']
+        return all(o == ('INIT' if i == 0 else 'UNION') for i, o in enumerate(ops_))
+    fn('first_inits_rest_unite', first_inits_rest_unite)
+
     def same_dest(I_, got, dest):
         if got is dest:
             return True
@@ -325,6 +332,29 @@ def install(I):
             cases.append(z3.And(*conds))
         return mk(z3.Or(*cases), 'bool') if cases else False
     fn('exit_sequence_ok', exit_sequence_ok)
+
+    def exit_sequence_pops(I_, p, tgt):
+        """the clean-up between the loop's exit point and its END_LOOP pops names (while the counter says some are left)"""
+        items = I_.read_items(p.attrs['_code_gen'].attrs['_code'])
+        tgt = to_term(tgt, 'int')
+        starts, tot = [], z3.IntVal(0)
+        for x in items:
+            starts.append(tot)
+            tot = tot + (x.n if isinstance(x, Segment) else 1)
+        def opname(x):
+            return '' if isinstance(x, Segment) else getattr(x.attrs['op_code'], 'name', '')
+        cases = []
+        for k in range(1, len(items)):
+            tail = items[k:-1]
+            has_pop = any(opname(x) == 'POP' for x in tail)
+            tests_counter = any(opname(x) in ('PUSH', 'PUSHQ', 'OP', 'MOVE') and any(getattr(x.attrs[f], 'name', None) == 'COUNTER' for f in ('param0', 'param1'))
+                                for x in tail if not isinstance(x, Segment))
+            back = any(opname(x) == 'JUMP' and not isinstance(x.attrs['param1'], type(None)) and
+                       I_.truth_concrete_or_none(I_.compare('Lt', x.attrs['param1'], 0)) is True for x in tail if not isinstance(x, Segment))
+            if has_pop and tests_counter and back:
+                cases.append(tgt == starts[k])
+        return mk(z3.Or(*cases), 'bool') if cases else False
+    fn('exit_sequence_pops', exit_sequence_pops)
 
     def falsy(I_, r):
         return r is None or r is False
